@@ -38,8 +38,10 @@ KONS = {
     "KU": lambda n: W.USub(n, w=3, tag=f"U{n}"),           # mixed, undecorated subclass
     "KH": lambda n: W.Hand(n, tag=f"H{n}"),                # hand-written __init__
     "KO": lambda n: W.Other(p=n, tag=f"O{n}"),             # unrelated type
+    "KD": lambda n: W.Dflt(),                              # no argument at all: every field from its default
+    "K0": lambda n: W.Hand0(),                             # hand-written __init__(self), no argument
 }
-DECL = {"DB": "Base", "DS": "Sub", "DH": "Hand", "DU": "USub"}
+DECL = {"DB": "Base", "DS": "Sub", "DH": "Hand", "DU": "USub", "DD": "Dflt", "D0": "Hand0"}
 SYMB = ("YB", "YH", "YS")
 MAX_Q = 2
 
@@ -130,7 +132,7 @@ def run_case(hist, inst):
                     del log[:]
                 elif op in DECL:
                     cls = W.CLASSES[DECL[op]]
-                    if op in ("DB", "DH"):
+                    if op in ("DB", "DH", "DD", "D0"):
                         v = let(cls)
                         with symbolic_mode():
                             q = an(entity(v))
@@ -187,10 +189,12 @@ def registry_ids():
     return sorted(out)
 
 
-LEGEND = ("KB=Base(n, 7) KS=Sub(k=n) KU=USub(n, w=3) KH=Hand(n) KO=Other(p=n)  [concrete constructions, n = running number]; "
+LEGEND = ("KB=Base(n, 7) KS=Sub(k=n) KU=USub(n, w=3) KH=Hand(n) KO=Other(p=n) KD=Dflt() K0=Hand0()  [concrete constructions, "
+          "n = running number]; "
           "YB=`with symbolic_mode(): Base(k=1)` YS=`with symbolic_mode(): Sub()` YH=`with rule_mode(): Hand(k=1)`; "
           "R=list(infer(entity(Sub(k=x.p), x.p >= 1)).evaluate()) over two Items; C=clear the registry (as test/conftest.py); "
-          "DB=declare q=an(entity(let(Base))) DH=let(Hand) DS=`with symbolic_mode(): an(entity(Sub()))` DU=USub(); "
+          "DB=declare q=an(entity(let(Base))) DH=let(Hand) DD=let(Dflt) D0=let(Hand0) DS=`with symbolic_mode(): "
+          "an(entity(Sub()))` DU=USub(); "
           "E<i>=list(q<i>.evaluate())")
 
 
